@@ -5,4 +5,5 @@ PROPERTY_MODULES.update({
     "C06": "contracts.C06_test_statistics",
     "C07": "contracts.C07_asymptotics",
     "C08": "contracts.C08_hypotest",
+    "C09": "contracts.C09_upper_limits",
 })
